@@ -1,29 +1,154 @@
 /-
 C20 — JSON output is well-formed and agrees with the text output.
-(partial by nature, see C18)
+
+Partial by nature (see C18).  The document is proved to have the documented structure for
+any number of arguments — head, one object per argument in order, a comma after every object
+but the last, the closing brackets once, at the end — and every object is proved to be the
+rendering of the same date the text mode reports.  That decimal numbers printed with `{}`
+and the fixed punctuation form valid JSON tokens is not proved in Lean (no JSON grammar is
+formalised); the correspondence check parses every sampled document with a JSON parser.
 -/
-import JulianVerif.Model.Cli
+import JulianVerif.Lemmas.CliSpec
 set_option linter.unusedSimpArgs false
 namespace JV.C20
 open JV Cli
 
-/-- the comma / bracket patching keeps the number of pieces -/
-theorem jsonPatch_length (out : List String) : (jsonPatch out).length = out.length := by
-  simp only [jsonPatch]
-  generalize hx : (if out.length > 2 then
-      out.mapIdx fun i s => if (decide (1 ≤ i) && decide (i < out.length - 1)) = true then s ++ "," else s
-    else out) = x
-  have hl : x.length = out.length := by
-    rw [← hx]; split <;> simp
-  cases hr : x.reverse with
-  | nil =>
-    have hx0 : x = [] := List.reverse_eq_nil_iff.mp hr
-    subst hx0
-    simp at hl
-    simp; omega
-  | cons last revInit =>
-    have := congrArg List.length hr
-    simp at this
-    simp; omega
+/-- the patching keeps the number of pieces -/
+theorem jsonPatch_length (out : List String) : (jsonPatch out).length = out.length :=
+  Cli.jsonPatch_length out
+
+/-- **commas and closing brackets, for any number of pieces**: the last piece is followed by
+the closing `]` `}`, every earlier piece except the document head by a comma, the head by
+nothing -/
+theorem jsonPatch_pieces (out : List String) (i : Nat) (hi : i < out.length) :
+    (jsonPatch out)[i]'(by rw [Cli.jsonPatch_length]; exact hi)
+      = if i = out.length - 1 then out[i] ++ "\n    ]\n}"
+        else if 1 ≤ i then out[i] ++ "," else out[i] :=
+  jsonPatch_getElem out i hi
+
+/-- **the document**: with -J and n ≥ 1 acceptable arguments the output is the head, then
+one object per argument in argument order, each the JSON rendering of the date that argument
+denotes; objects 1 … n-1 are followed by a comma, object n by the closing brackets -/
+theorem json_document (o : Options) (hj : o.json = true) (today : Int) (args : List String)
+    (hne : args ≠ []) (ls : List String) (h : argLines o args = .ok ls) :
+    o.run today args = .ok (jsonPatch (jsonStart o.calendar :: ls))
+    ∧ ls.length = args.length
+    ∧ (∀ i (h1 : i < args.length) (h2 : i < ls.length),
+        ∃ d, argDate o args[i] = some d ∧ ls[i] = date2json d)
+    ∧ (∀ i (h2 : i < ls.length),
+        (jsonPatch (jsonStart o.calendar :: ls))[i + 1]'(by
+            rw [Cli.jsonPatch_length]; simp; omega)
+          = ls[i] ++ (if i + 1 = ls.length then "\n    ]\n}" else ",")) := by
+  have he : args.isEmpty = false := by cases args <;> simp_all
+  refine ⟨?_, ((argLines_ok_iff o args ls).mp h).1, ?_, ?_⟩
+  · rw [run_eq]; simp [he, h, hj]
+  · intro i h1 h2
+    have := ((argLines_ok_iff o args ls).mp h).2 i h1 h2
+    obtain ⟨d, hd, hl⟩ := (argLine_ok_iff o _ _).mp this
+    exact ⟨d, hd, by rw [hl, hj]; rfl⟩
+  · intro i h2
+    rw [jsonPatch_getElem _ (i + 1) (by simp; omega)]
+    simp only [List.length_cons, List.getElem_cons_succ, Nat.add_sub_cancel]
+    by_cases hl : i + 1 = ls.length
+    · simp [hl, jsonTail]
+    · have : ¬ i + 1 = ls.length + 1 - 1 := by omega
+      simp [hl, this]
+
+/-- with no arguments the document holds the one object of the clock's date -/
+theorem json_no_args (o : Options) (hj : o.json = true) (today : Int) (d : Date)
+    (h : o.calendar.atJdn? today = some d) :
+    o.run today [] = .ok [jsonStart o.calendar, date2json d ++ "\n    ]\n}"] := by
+  rw [run_eq]
+  simp only [List.isEmpty_nil, if_true, h, hj, Options.dateToJdn, List.cons_append,
+    List.nil_append]
+  have : jsonPatch [jsonStart o.calendar, date2json d]
+      = [jsonStart o.calendar, date2json d ++ jsonTail] := by
+    simp [jsonPatch, withCommas, closeLast]
+  rw [this]; rfl
+
+/-- **JSON and text report the same date**: the date an argument denotes does not depend on
+any output option; the JSON object is `date2json` of it, the text line `textLine` of it -/
+theorem json_agrees_with_text (o : Options) (a : String) (l : String) :
+    argDate { o with json := true } a = argDate { o with json := false } a
+    ∧ (argLine { o with json := true } a = .ok l
+        ↔ ∃ d, argDate o a = some d ∧ l = date2json d)
+    ∧ (argLine { o with json := false } a = .ok l
+        ↔ ∃ d, argDate o a = some d ∧ l = textLine { o with json := false } a d) := by
+  refine ⟨rfl, ?_, ?_⟩
+  · rw [argLine_ok_iff]; simp only [if_true]; rfl
+  · rw [argLine_ok_iff]; simp only [Bool.false_eq_true, if_false]; rfl
+
+/-- **the date object**: day number, year, month, day, day of year and both display strings
+of one and the same date, then the `old_style` member (next theorem) -/
+theorem date_object (d : Date) :
+    date2json d =
+      sp 8 ++ "{\n" ++
+      sp 12 ++ s!"\"julian_day_number\": {d.jdn},\n" ++
+      sp 12 ++ s!"\"year\": {d.year},\n" ++
+      sp 12 ++ s!"\"month\": {d.month.number},\n" ++
+      sp 12 ++ s!"\"day\": {d.day},\n" ++
+      sp 12 ++ s!"\"ordinal\": {d.ordinal},\n" ++
+      sp 12 ++ "\"display\": \"" ++ String.ofList (JV.fmtDate d) ++ "\",\n" ++
+      sp 12 ++ "\"ordinal_display\": \"" ++ String.ofList (fmtDateAlt d) ++ "\"" ++
+      (if d.calendar.isReforming then
+        ",\n" ++ sp 12 ++ "\"old_style\": " ++ (if d.isJulian then "true" else "false")
+       else "") ++
+      "\n" ++ sp 8 ++ "}" := rfl
+
+/-- **`old_style` is present exactly for reforming calendars and is true exactly for days
+before the reformation** -/
+theorem old_style_member (d : Date) :
+    (if d.calendar.isReforming then
+        ",\n" ++ sp 12 ++ "\"old_style\": " ++ (if d.isJulian then "true" else "false")
+      else "")
+    = (match d.calendar with
+       | .reforming r _ =>
+         ",\n" ++ sp 12 ++ "\"old_style\": " ++ (if d.jdn < r then "true" else "false")
+       | _ => "") := by
+  cases hc : d.calendar <;> simp [Calendar.isReforming, Date.isJulian, hc]
+
+/-- **the calendar object** names the selected calendar, with its reformation day exactly
+when it is a reforming calendar -/
+theorem calendar_object (c : Calendar) :
+    jsonStart c =
+      "{\n" ++ sp 4 ++ "\"calendar\": {\n" ++ sp 8 ++ "\"type\": \"" ++
+      (match c with
+       | .julian => "julian"
+       | .gregorian => "gregorian"
+       | .reforming _ _ => "reforming") ++ "\"" ++
+      (match c with
+       | .reforming r _ => ",\n" ++ sp 8 ++ s!"\"reformation\": {r}"
+       | _ => "") ++
+      "\n" ++ sp 4 ++ "},\n" ++ sp 4 ++ "\"dates\": [" := by
+  cases c <;> rfl
+
+/-- the display strings need no JSON escaping: they consist of digits and '-' only -/
+theorem display_strings_plain (d : Date) :
+    (∀ c ∈ JV.fmtDate d, isAsciiDigit c = true ∨ c = '-')
+    ∧ (∀ c ∈ fmtDateAlt d, isAsciiDigit c = true ∨ c = '-') := by
+  have hy : ∀ c ∈ fmtYear d.year, isAsciiDigit c = true ∨ c = '-' := by
+    intro c hc
+    simp only [fmtYear] at hc
+    split at hc
+    · simp only [List.mem_cons] at hc
+      rcases hc with rfl | hc
+      · exact Or.inr rfl
+      · exact Or.inl ((padNat_spec 4 _).2.1 c hc)
+    · exact Or.inl ((padNat_spec 4 _).2.1 c hc)
+  constructor
+  · intro c hc
+    simp only [JV.fmtDate, List.mem_append, List.mem_singleton] at hc
+    rcases hc with (((hc | rfl) | hc) | rfl) | hc
+    · exact hy c hc
+    · exact Or.inr rfl
+    · exact Or.inl ((padNat_spec 2 _).2.1 c hc)
+    · exact Or.inr rfl
+    · exact Or.inl ((padNat_spec 2 _).2.1 c hc)
+  · intro c hc
+    simp only [fmtDateAlt, List.mem_append, List.mem_singleton] at hc
+    rcases hc with (hc | rfl) | hc
+    · exact hy c hc
+    · exact Or.inr rfl
+    · exact Or.inl ((padNat_spec 3 _).2.1 c hc)
 
 end JV.C20
